@@ -32,7 +32,7 @@ OPS = ["append", "append", "insert", "extend_list", "extend_treelist", "iadd", "
 class C11(Machine):
     name = "c11"
     property_id = "C11"
-    runs = {"quick": 60000, "thorough": 2500000}
+    runs = {"quick": 60000, "thorough": 1000000}
     batch = 300
     rule = ("seeded histories (5-40 steps) of TreeList / TreeArray / CharacterMatrix / DataSet operations fed with trees and matrices "
             "built under foreign namespaces with overlapping, disjoint and case-variant label sets; distinct = operation-name sequences "
@@ -50,7 +50,7 @@ class C11(Machine):
 
     def gen(self, rng, tier):
         steps = []
-        for _ in range(rng.randint(5, 40)):
+        for _ in range(rng.randint(5, 90 if tier == "thorough" else 40)):
             labs = rng.sample(LABELS, rng.randint(2, 5))
             steps.append({"op": rng.choice(OPS), "l": rng.randrange(100), "l2": rng.randrange(100), "i": rng.randrange(100), "j": rng.randrange(100),
                           "labels": labs, "shape": rng.choice(["binary", "poly", "caterpillar"]), "strategy": rng.choice(["migrate", "migrate", "add"]),
